@@ -758,6 +758,11 @@ class _GzipMessageDelegate(httputil.HTTPMessageDelegate):
         start_line: httputil.RequestStartLine | httputil.ResponseStartLine,
         headers: httputil.HTTPHeaders,
     ) -> Awaitable[None] | None:
+        # headers_received is called once per header block, i.e. also for
+        # every interim (1xx) response that precedes the final one. The
+        # coding named by one header block must not be applied to the body
+        # that follows a later one.
+        self._decompressor = None
         if headers.get("Content-Encoding", "").lower() == "gzip":
             self._decompressor = GzipDecompressor()
             # Downstream delegates will only see uncompressed data,
